@@ -4,12 +4,18 @@
 //! all worker threads) and again with the parse cache off, pruning off, both off (thread-local
 //! `cfg(sqruff_verif)` switches), on a fresh dialect instance, and a second time on the shared instance;
 //! the serialised trees must be identical.  A separate phase parses the same inputs concurrently on
-//! several threads that share one dialect instance.
+//! several threads that share one dialect instance.  Every fixture is also parsed under every other
+//! dialect (cache off / pruning off).  Big inputs (generated shapes beyond 2^16 tokens and memo
+//! locations; slice-length straddles: inputs in which two slices that one matcher answers differently
+//! on are exactly 2^16 tokens apart) are parsed cache on vs off, each parse on its own thread.
+//! Monitors: every cache hit against a recomputation; every location key against the
+//! (token, slice length) it stands for.
 //! Correspondence: `longest_match` calls recorded through the `verif_lm` recorder are replayed on the
 //! Gallina model (Cache/Model.v): evaluated options, cache hits, chosen option.
 //! Static part: the cache keys of all nodes that can be options of `longest_match` (set K) are written
 //! to coq/gen/Keys_<d>.v where `keys_inj_b` is evaluated by vm_compute.
 use std::collections::{BTreeMap, BTreeSet, HashMap};
+use std::fmt::Write as _;
 use std::hash::{Hash, Hasher};
 use std::sync::Arc;
 
@@ -450,8 +456,6 @@ fn large_sql(shape: &str, n: usize) -> String {
     }
     s
 }
-use std::fmt::Write as _;
-
 fn lex_count(d: &Dialect, sql: &str) -> usize {
     use sqruff_lib_core::parser::lexer::StringOrTemplate;
     use sqruff_lib_core::parser::segments::base::Tables;
